@@ -166,6 +166,29 @@ theorem spec_decrypts_impl (c : Crypto) (cd : Codec) (P : EncParams) (pwf : P.WF
   rw [encrypt_layout c cd P pwf o fk np wfk r heof hhdr hcount]
   exact specDecrypt_specEncrypt c cd P pwf lc lcd fk _ hm r.stream
 
+/-- `Decrypt ∘ Encrypt = id` on the implementation-shaped functions themselves, including the header
+    limit: whatever header `Encrypt` agrees to emit (`SignHeader` refuses more than `segSize` bytes)
+    fits the buffer `readHeader` reads into (`hdrMax`), so every document `Encrypt` produces — with key
+    names or wrapped keys of any size it accepts — is opened, for every script on both sides. -/
+theorem decrypt_encryptImpl (c : Crypto) (cd : Codec) (P : EncParams) (pwf : P.WF)
+    (lc : c.Lawful P.overhead) (lcd : cd.Lawful P) (hlim : P.segSize ≤ P.hdrMax)
+    (eo : EncryptOpts) (fk np wfk : Bytes) (hfk : fk.length = P.fkLen)
+    (hm : (mkManifest eo wfk np).valid P = true) (o : DecryptOpts)
+    (hkn : o.keyName ≠ [] ∨ (mkManifest eo wfk np).keyName ≠ [])
+    (hunwrap : ∀ kn, o.unwrap (mkManifest eo wfk np) kn = fk)
+    (src : Reader) (hsrc : src.term = .eof)
+    (hhdr : (signHeader c cd P fk (cd.render (mkManifest eo wfk np))).length ≤ P.segSize)
+    (hcount : (segments P.segSize src.stream).length ≤ P.maxSeg + 1)
+    (r : Reader) (heof : r.term = .eof) (hstream : r.stream = (encryptImpl c cd P eo fk np wfk src).1) :
+    decryptImpl c cd P o r = (src.stream, .ok) := by
+  rw [encrypt_layout c cd P pwf eo fk np wfk src hsrc hhdr hcount] at hstream
+  exact decrypt_encrypt c cd P pwf lc lcd fk hfk _ hm src.stream o hkn hunwrap (by omega) hcount r heof hstream
+
+/-- T1: in the source the two limits coincide (both are `SegmentSize` = 64 KiB). -/
+theorem header_limit_matches :
+    EncParams.generated.segSize ≤ EncParams.generated.hdrMax ∧ Gen.headerLimit = Gen.segmentSize ∧
+    Gen.encryptSegmentArg = Gen.segmentSize := by decide
+
 /-- The parameters regenerated from the Go source satisfy what the theorems assume. -/
 theorem generated_wf : EncParams.generated.WF :=
   ⟨by decide, by decide, by decide⟩
